@@ -1,6 +1,7 @@
 import ExaModel.Lemmas.SessionCheck
 import ExaModel.Lemmas.SessionSpec
 import ExaModel.Lemmas.SessionFrame
+import ExaModel.Lemmas.PeerPy
 import ExaModel.Generated.NotifyTable
 set_option linter.unusedSimpArgs false
 set_option linter.unusedVariables false
@@ -186,6 +187,15 @@ theorem code_names_rfc :
       [(1, "Message header error"), (2, "OPEN message error"), (3, "UPDATE message error"),
        (4, "Hold timer expired"), (5, "State machine error"), (6, "Cease")] := by
   decide
+
+/-- **A refused incoming connection is answered with a Cease** (`Peer.handle_connection` as translated from
+    /repo on this run, on every state of the model): the model's `reject` is NOTIFICATION 6/3 (the peer is being
+    removed) or 6/7 (Connection Collision Resolution, RFC 4486), never another code, and it is written exactly
+    when the model refuses. -/
+theorem refused_incoming_is_cease (s : State) (h : refuses s = true) :
+    pyHandle s = .raise 6 3 ∨ pyHandle s = .raise 6 7 := by
+  have := (py_handle_refuses s).1 h
+  cases hc : (!s.restart && s.teardown.isSome) <;> simp [hc] at this <;> simp [this]
 
 /-! ## non-vacuity -/
 
